@@ -183,3 +183,14 @@ def free_domains(atoms, known, int_range):
         else:
             doms.append((a, list(int_range)))
     return doms
+
+
+def mentions_field(t, adt, name):
+    """some sub-term projects or points at field `adt.name`"""
+    e = ("f", adt, name)
+    for s in subterms(t):
+        if s[0] == "proj" and s[2] == e:
+            return True
+        if s[0] == "ptr" and e in s[2]:
+            return True
+    return False
